@@ -70,10 +70,53 @@ def _same_object_again(make, inputs, acc, label, case_of):
             break
 
 
+def scramble(out):
+    """The caller does what it likes with a result: every list and dict reachable from it is edited in place (lists
+    reversed and extended, dicts given one more key).  Nothing of that may reach back into the middleware."""
+    from .canon import reachable
+
+    for o in list(reachable(out).values()):
+        try:
+            if type(o) is list:
+                o.reverse()
+                o.append("scrambled by the caller")
+            elif type(o) is dict:
+                o["scrambled by the caller"] = ["x"]
+        except Exception:
+            pass
+
+
+def _caller_scrambles_results(make, inputs, acc, label, case_of):
+    inst = make()
+    for i, mk in enumerate(inputs):
+        acc.trace(3)
+        acc.case(nontrivial_key=("leak-scrambled", label, i))
+        try:
+            a = canon(inst.transform(mk()))
+        except Exception as e:
+            a = ("raised", type(e).__name__)
+        try:
+            b = canon(make().transform(mk()))
+        except Exception as e:
+            b = ("raised", type(e).__name__)
+        if a != b:
+            acc.violation(
+                {"oracle": "reused_instance_equals_fresh", "middleware": label, "how": "the caller edited every list and dict of the earlier results"},
+                {"case": {"leak": label, "order": "results scrambled", "input": case_of(i) if case_of else i}, "observed": repr(a)[:400], "expected": repr(b)[:400]},
+                size=i,
+            )
+            break
+        try:
+            scramble(inst.transform(mk()))
+        except Exception:
+            pass
+
+
 def run(make, inputs, acc, label, case_of=None, poison=(), judge=None):
     """make() -> fresh middleware; inputs / poison: lists of zero-argument factories of fresh libraries."""
     n = len(inputs)
     _same_object_again(make, inputs, acc, label, case_of)
+    _caller_scrambles_results(make, inputs, acc, label, case_of)
     orders = [list(range(n)), list(range(n))[::-1]]
     for oi, order in enumerate(orders):
         inst = make()
